@@ -991,8 +991,46 @@ def _is_peer_address(t) -> bool:
     )
 
 
+def _k2_property(ctx: Context) -> bool:
+    """host_header defined as a (cached) property instead of an attribute refreshed by _connect_once."""
+    ck = ctx.ck
+    handled = False
+    for c in ctx.prog.classes.values():
+        m = c.methods.get("host_header")
+        if m is None or not c.module.name.startswith("aiohomekit.controller.ip"):
+            continue
+        handled = True
+        decs = [d.rsplit(".", 1)[-1].split("(")[0] for d in m.decorators]
+        cached = any(d in ("cached_property", "cache", "lru_cache") for d in decs)
+        if cached:
+            # memoised once per connection OBJECT, but the object reconnects to other addresses
+            inval = False
+            for g in ctx.prog.package_functions():
+                if isinstance(g.node, ast.Lambda) or not g.module.name.startswith("aiohomekit.controller.ip"):
+                    continue
+                for x in ast.walk(g.node):
+                    if isinstance(x, ast.Delete) and any(isinstance(t, ast.Attribute) and t.attr == "host_header" for t in x.targets):
+                        inval = True
+                    if isinstance(x, ast.Call) and isinstance(x.func, ast.Attribute) and x.func.attr == "pop" and x.args and isinstance(x.args[0], ast.Constant) and x.args[0].value == "host_header":
+                        inval = True
+            ck.check(
+                "C09.K2",
+                inval,
+                "host_header (memoised property) is invalidated on reconnect",
+                f"{ctx.fkey(m)}:host_header-memoised",
+                f"{c.name}.host_header is a memoised property ({', '.join(m.decorators)}) computed from the connected host on first use and never "
+                "invalidated: after a reconnect to a different advertised address every request still carries the Host of the FIRST connection",
+                m.loc(),
+            )
+        else:
+            ck.unknown("C09.K2", f"{c.name}.host_header is a property: its forms are not decided by this rule", m.loc())
+    return handled
+
+
 def _k2(ctx: Context) -> None:
     ck, T = ctx.ck, ctx.terms
+    if _k2_property(ctx):
+        return
     owner = _hc(ctx, "_connect_once")
     init = _hc(ctx, "__init__")
     n_forms = {"plain": 0, "bracketed": 0}
